@@ -252,6 +252,8 @@ class EpisodeMonitor:
             if cid in self.suspended:
                 self.ev("c20-resumed")
                 fi, key, would = self.suspended.pop(cid)
+                # a resumed call is a completed call: its key counts as called (C03 bookkeeping)
+                self.seen_keys.setdefault(f"{fi}:g", set()).add(key)
                 if o["kind"] != "resumed" or (would is not None and o["ret"] != would):
                     self.fail("C20", f"{op}: the resumed call returned {str(o.get('ret'))[:40]}, its body produced {str(would)[:40]}")
                 s = self.spec[fi]
